@@ -16,6 +16,7 @@ import (
 
 // Ctx is the resolved program under analysis: typed syntax + SSA of /repo/src.
 type Ctx struct {
+	lineScopeCache map[*ssa.Function]bool
 	RepoDir string
 	Tier    string
 	Fset    *token.FileSet
